@@ -270,8 +270,12 @@ func expandOps(ops []string) []string {
 				}
 			}
 		}
-		if len(f) > 0 && f[0] == "txn" {
-			for j := 1; j < len(f); j++ {
+		if len(f) > 0 && isTxn(f[0]) {
+			first := 1
+			if f[0] == "vtxn" {
+				first = 2
+			}
+			for j := first; j < len(f); j++ {
 				if strings.Contains(f[j], ":") {
 					continue
 				}
@@ -335,6 +339,9 @@ func genWorkload(r *hlib.Rand, sync bool, n int, bigBuf bool) (string, []string)
 		s = 1
 	}
 	open := fmt.Sprintf("open sync=%d mt=%d vt=%d vf=%d", s, mt, vt, vf)
+	if !bigBuf && r.Chance(35) {
+		open += " mr=1" // ManifestRewriteThreshold 1: every manifest edit is followed by a manifest rewrite
+	}
 	var txns []string
 	used := []int{}
 	budget := 1400000 // big-value workloads stay inside one memtable: multi-block SSTs are E-LSM's business
@@ -419,7 +426,32 @@ func (e *diskEngine) Gen(r *hlib.Rand, tier string) []string {
 			e.shapes["one-commit-reopen"]++
 			return append(append([]string{propLine, open}, txns[:1]...), "close", "reopen", probeLine(), "close", "reopen")
 		}
+		if r.Chance(8) {
+			// option set with inline values above 4 MiB (ValueThreshold 8 MiB, batch limits 16 MiB):
+			// one 5 MiB value between small keys, still in the WAL at Close
+			ss := 0
+			if sync {
+				ss = 1
+			}
+			ops := []string{propLine, fmt.Sprintf("open sync=%d mt=16777216 vt=8388608 vf=1048576 bs=16777216", ss),
+				"txn " + entToken(1, 30, 0, 8388608) + " " + entToken(2, 30, 0, 8388608),
+				"txn " + entToken(3, 5242880, 0, 8388608),
+				"txn " + entToken(4, 30, 0, 8388608), "close", "reopen", probeLine(),
+				"txn " + entToken(5, 40, 0, 8388608), "close", "reopen", probeLine()}
+			e.shapes["huge-inline-value"]++
+			return ops
+		}
 		open, txns := genWorkload(r, sync, 9+r.Intn(12), r.Chance(8))
+		if r.Chance(14) && !strings.Contains(open, "mt=2000000") {
+			// everything flushed, then only a LOWER-versioned record in the fresh memtable at Close
+			// (an entry that brings its own version through Txn.SetEntry): the oracle must still be
+			// seeded from the tables
+			ops := append([]string{propLine, open}, txns...)
+			ops = append(ops, "maint rotate", "vtxn 1 "+entToken(77, 24, 0, 64), "close", "reopen", probeLine(),
+				"txn "+entToken(78, 24, 0, 64), "close", "reopen", probeLine())
+			e.shapes["low-version-after-flush"]++
+			return ops
+		}
 		ops := []string{propLine, open}
 		// at least two close/reopen rounds with writes (rotations, flushes) in between; before a
 		// close, often explicit compaction steps (L0 -> ingest buffer, ingest drain/merge: the drain
@@ -440,6 +472,9 @@ func (e *diskEngine) Gen(r *hlib.Rand, tier string) []string {
 				ops = append(ops, "maint drain")
 			}
 			ops = append(ops, "close", "reopen")
+			if r.Chance(50) {
+				ops = append(ops, probeLine()) // the next commit's version against everything stored
+			}
 		}
 		ops = append(ops, probeLine(), "close", "reopen")
 		e.shapes["clean-reopen"]++
@@ -455,6 +490,21 @@ func (e *diskEngine) Gen(r *hlib.Rand, tier string) []string {
 		// rewritten before the crash); they are workload lines like the transactions
 		at := len(txns) - 1 - r.Intn(2) // late: tables have usually been flushed by then
 		txns = append(append(append([]string{}, txns[:at]...), "maint l0move", "maint drain"), txns[at:]...)
+	}
+	if sync && !bigBuf && !strings.Contains(open, "mt=100 ") && len(txns) > 2 && r.Chance(40) {
+		// several requests in one commit batch: a commit parked before its sync, then an inline-only
+		// request and a request with value-log values (often rotating the value log) coalesced
+		at := 1 + r.Intn(len(txns)-1)
+		big := hlib.Pick(r, []int{700, 1000, 1500})
+		grp := []string{
+			"ptxn " + entToken(60, 20, 0, 64),
+			"ptxn " + entToken(61, 25, 0, 64) + " " + entToken(62, 25, 0, 64),
+			"ptxn " + entToken(63, big, 0, 64) + " " + entToken(64, big, 0, 64),
+			"join"}
+		if r.Chance(30) {
+			grp = []string{grp[0], grp[2], grp[1], "join"}
+		}
+		txns = append(append(append([]string{}, txns[:at]...), grp...), txns[at:]...)
 	}
 	learn := append([]string{propLine, open}, txns...)
 	learn = append(learn, "close")
@@ -478,14 +528,16 @@ func (e *diskEngine) Gen(r *hlib.Rand, tier string) []string {
 			return len(strings.Split(body, ","))
 		}
 		// line numbers shift by one: the case has the `kill` line after `open`
-		if strings.HasPrefix(o, "txn") {
+		if strings.HasPrefix(o, "txn") || strings.HasPrefix(o, "ptxn") || o == "join" {
 			for k := 1; k <= count("c"); k++ {
 				pts = append(pts, kp{"C", i + 1, k})
 			}
 			for k := 1; k <= count("f"); k++ {
 				pts = append(pts, kp{"F", i + 1, k})
 			}
-			pts = append(pts, kp{"N", i + 1, 0})
+			if !strings.HasPrefix(o, "ptxn") {
+				pts = append(pts, kp{"N", i + 1, 0})
+			}
 		}
 		if o == "close" {
 			for k := 1; k <= count("x"); k++ {
@@ -810,9 +862,11 @@ func (e *diskEngine) Exec(ops []string) []string {
 			if recoverLine < 0 {
 				recoverLine = i
 			}
-		case "txn":
+		case "txn", "ptxn", "vtxn":
 			sizes[i] = len(s.Ents)
 			txnLines = append(txnLines, i)
+		case "probe":
+			txnLines = append(txnLines, i) // takes a commit timestamp
 		}
 	}
 	bad := malformedLines(specs)
@@ -850,7 +904,7 @@ func (e *diskEngine) Exec(ops []string) []string {
 				}
 				r := f[2]
 				kind := specs[n].Kind
-				if kind == "txn" && r == "ack" {
+				if (kind == "txn" || kind == "vtxn") && r == "ack" {
 					acked = append(acked, n)
 				}
 				if (kind == "recover" || kind == "reopen") && strings.HasPrefix(r, "open=") {
@@ -877,6 +931,10 @@ func (e *diskEngine) Exec(ops []string) []string {
 				res[n] = r
 			case "d":
 				diedOf = f[1]
+			case "a":
+				if len(f) == 3 && f[2] == "ack" {
+					acked = append(acked, n) // an asynchronous commit (ptxn) returned
+				}
 			case "m":
 				e.kills["maint-"+strings.ReplaceAll(f[2], " ", "-")]++
 			case "b":
@@ -911,8 +969,10 @@ func (e *diskEngine) Exec(ops []string) []string {
 				kind = ""
 			}
 			switch kind {
-			case "txn":
+			case "txn", "vtxn", "join":
 				r += " c=[" + tr("C") + "] f=[" + tr("F") + "]"
+			case "ptxn":
+				r += " c=[" + tr("C") + "]"
 			case "close":
 				r += " x=[" + tr("X") + "]"
 			}
